@@ -128,6 +128,7 @@ func (s *sim) drawConfig() {
 			// the Byzantine validator takes part in consensus honestly (the others need its votes while
 			// the laggard is down) and lies only as a fast-sync server
 			b.fastsync = true
+			b.starveParts = t.Permille("fs.starveparts", 500)
 			c.N = []int{4, 5}[t.Choose("n.fs", 2)]
 			c.F = 1
 		}
